@@ -151,7 +151,7 @@ CODEC_ASSUME = [
 ]
 
 
-def codec_family(ctx, n_quick, n_thorough, mc_cfgs_quick=("default",), extra_cov=None):
+def codec_family(ctx, n_quick, n_thorough, mc_cfgs_quick=("default",), extra_cov=None, rnd_cfg="mix"):
     ctx.build()
     cfgs = list(mc_cfgs_quick) if ctx.quick else ["default", "pt", "pa", "both"]
     cases, st = fam_codec.mc_codec(ctx.work, cfgs, True, sweep="SweepQuick" if ctx.quick else "SweepThorough")
@@ -159,7 +159,7 @@ def codec_family(ctx, n_quick, n_thorough, mc_cfgs_quick=("default",), extra_cov
     log("design check MCCodec: %d states, %d cases emitted" % (st["distinct"], len(cases)))
     p1 = os.path.join(ctx.work, "mc_cases.ndjson")
     fam_codec.write_cases(cases, p1, 0)
-    p2 = fam_codec.gen_random(ctx.pvh, ctx.work, n_quick if ctx.quick else n_thorough, ctx.seed)
+    p2 = fam_codec.gen_random(ctx.pvh, ctx.work, n_quick if ctx.quick else n_thorough, ctx.seed, cfg=rnd_cfg)
     ctx.case_files = [p1, p2]
     t1 = fam_codec.run_cases(ctx.pvh, p1, ctx.work, "mc")
     t2 = fam_codec.run_cases(ctx.pvh, p2, ctx.work, "rnd")     # sessions of 50 cases share one instance
@@ -186,5 +186,17 @@ def plan_C05(ctx):
     return codec_family(ctx, 6000, 200000)
 
 
-PLANS = {"C01": plan_C01, "C02": plan_C02, "C05": plan_C05}
-MODULES = {"C01": "TraceCodec", "C02": "TraceCodec", "C05": "TraceCodec"}
+def plan_C09(ctx):
+    return codec_family(ctx, 6000, 200000)
+
+
+def plan_C14(ctx):
+    return codec_family(ctx, 6000, 200000)
+
+
+def plan_C12(ctx):
+    return codec_family(ctx, 6000, 200000, mc_cfgs_quick=("both", "pa"), rnd_cfg="mix")
+
+
+PLANS = {"C12": plan_C12, "C01": plan_C01, "C02": plan_C02, "C05": plan_C05, "C09": plan_C09, "C14": plan_C14}
+MODULES = {k: "TraceCodec" for k in PLANS}
